@@ -383,7 +383,7 @@ Definition parse_res (fuzzy fuzzy_with_tokens yearfirst dayfirst : bool) (cur_ye
     let '(yy, mm, dd) := t3 in
     Ok (mkSt (p_l st) (p_i st) (set_ymdc (p_r st) yy mm dd (y_century (p_y st))) (p_y st) (p_sk st)) in
   match body with
-  | Err IndexError | Err ValueError => Ok None
+  | Err IndexError | Err ValueError | Err ValueErrorNoStr => Ok None
   | Err e => Err e
   | Ok st =>
       do r <- validate cur_year (p_r st);
